@@ -134,7 +134,15 @@ func firstLine(s string) string {
 
 // Run executes the family packed (and/or alone) and calls handle for every scenario view.
 func Run(f Family, scratch string, routes []scen.RoutesJob, packed, singles []scen.Case, handle func(View)) *scen.Runner {
-	rn := &scen.Runner{Scratch: scratch, Specs: []string{"3.0.0", "3.1.0"}, Routes: routes, PackSize: f.PackSize, BaseCfg: f.BaseCfg}
+	return RunOpt(f, scratch, routes, packed, singles, false, handle)
+}
+
+// RunOpt is Run with the validate-only switch (no intermediate metadata, no documents).
+func RunOpt(f Family, scratch string, routes []scen.RoutesJob, packed, singles []scen.Case, validateOnly bool, handle func(View)) *scen.Runner {
+	rn := &scen.Runner{Scratch: scratch, Specs: []string{"3.0.0", "3.1.0"}, Routes: routes, PackSize: f.PackSize, BaseCfg: f.BaseCfg, ValidateOnly: validateOnly}
+	if validateOnly {
+		rn.Specs = nil
+	}
 	rn.RunPacked(packed, func(o scen.Outcome) {
 		for _, v := range MakeViews(o, false) {
 			handle(v)
